@@ -34,7 +34,7 @@ TRUSTED_EXTRA = [
     "(coq/theories/Sync/Pool.v), whose own tie to src/managed is the managed engine's",
 ]
 
-LNAMES = {0: 'Spawn', 1: 'CancelAwait', 2: 'Deliver', 3: 'BAcquire', 4: 'BSkip', 5: 'BFinish', 6: 'DropWrapper', 7: 'BStart'}
+LNAMES = {0: 'Spawn', 1: 'CancelAwait', 2: 'Deliver', 3: 'BAcquire', 4: 'BSkip', 5: 'BFinish', 6: 'DropWrapper', 7: 'BStart', 9: '(timeout)'}
 
 
 # ------------------------------------------------------------------ build
@@ -63,7 +63,8 @@ def gen_cases(seed, profile, n, maxlabels):
     cases = [json.loads(l) for l in p.stdout.splitlines() if l.strip()]
     if p.returncode != 0 or len(cases) != n:
         raise RuntimeError('harness failed (rc %d, %d/%d cases): %s' % (p.returncode, len(cases), n, p.stderr[-500:]))
-    return cases
+    # cases skipped after repeated timeouts carry no history
+    return [c for c in cases if c['labels'] or not str(c.get('err', '')).startswith('skipped')]
 
 
 def replay_cases(items):
@@ -126,7 +127,8 @@ def fmt_label14(l):
 ANOM = {2: 'timeout: %d', 3: 'wrapper still shared at drop', 4: 'dropping the wrapper blocked the async thread',
         5: 'closure of job %d entered while another closure is inside the value',
         6: 'destructor entered while a closure is inside the value', 7: 'unexpected event %d',
-        8: 'await of job %d ended differently than scripted', 9: 'label %d not executable'}
+        8: 'await of job %d ended differently than scripted', 9: 'label %d not executable',
+        10: 'the wrapper was dropped and nothing holds the mutex, but the wrapped value is never destroyed'}
 
 
 def monitor14(t, P, A):
@@ -157,8 +159,6 @@ def monitor14(t, P, A):
                         return i, 'closure of job %d entered while job %s is inside the value' % (k, inside)
                     if taken:
                         return i, 'closure of job %d entered after the value was destroyed' % k
-                    if poisoned_since is not None:
-                        return i, 'closure of job %d entered although the mutex is poisoned' % k
                     inside = k
             elif kind == 2:
                 if kinds.get(k) == 1:
@@ -193,7 +193,7 @@ def monitor14(t, P, A):
                 if not r and res == 1:
                     return i, 'interaction %d reported Ok although its closure never ran' % k
         for a in an:
-            if a[0] in (4, 5, 6):
+            if a[0] in (4, 5, 6, 10):
                 return i, ANOM[a[0]] % a[1] if '%' in ANOM[a[0]] else ANOM[a[0]]
     # end of the history: a created value whose wrapper is gone was destroyed exactly once
     if P and not t.get('err'):
@@ -419,7 +419,7 @@ def analyze15(traces, mobs_all, summ, harness_errs, hist):
 # ------------------------------------------------------------------ the engine run
 def batches(tier):
     if tier == 'thorough':
-        return [('c14', 6000, 60), ('sqlite', 1500, 60), ('r2d2', 2500, 60), ('diesel', 1500, 60)]
+        return [('c14', 20000, 60), ('sqlite', 4000, 60), ('r2d2', 8000, 60), ('diesel', 4000, 60)]
     return [('c14', 500, 40), ('sqlite', 120, 30), ('r2d2', 160, 30), ('diesel', 120, 30)]
 
 
@@ -477,7 +477,16 @@ def run_engine(seed, tier):
     for bi, (profile, n, ml) in enumerate(batches(tier)):
         traces += gen_cases(seed * 1000 + bi, profile, n, ml)
     t1 = time.time()
-    mo = model_obs(traces, 's%d' % os.getpid())
+    try:
+        mo = model_obs(traces, 's%d' % os.getpid())
+    except RuntimeError as ex:
+        # another check rebuilt a library we depend on in the meantime: rebuild ours, once
+        if 'inconsistent assumptions' not in str(ex):
+            raise
+        ok, out = coq_build()
+        if not ok:
+            return dict(build_failed=True, log=out)
+        mo = model_obs(traces, 's%d' % os.getpid())
     t2 = time.time()
     res = analyze(traces, mo)
     res.update(ntraces=len(traces), ncorpus=ncorpus, key=key, seed=seed, tier=tier,
